@@ -1,7 +1,7 @@
 SPECIFICATION Spec
 CONSTANTS
-  MaxU = 8
-  Variant = "asis"
+  MaxU = 6
+  Variant = "repaired"
   Measures = {"JACCARD", "COSINE", "DICE", "OVERLAP"}
 INVARIANT Safe
 INVARIANT Tight
